@@ -65,7 +65,8 @@ impl Cfg {
     pub fn options(&self, path: &Path) -> nomt::Options {
         let mut o = nomt::Options::new();
         o.path(path);
-        o.commit_concurrency(self.commit_concurrency);
+        let cc = std::env::var("NV_FORCE_CC").ok().and_then(|v| v.parse().ok()).unwrap_or(self.commit_concurrency);
+        o.commit_concurrency(cc);
         o.io_workers(self.io_workers);
         o.hashtable_buckets(self.buckets);
         o.bitbox_seed(self.bitbox_seed);
